@@ -40,6 +40,11 @@ mults_f = z3.Function("multiples", I, I, S)  # multiples(a, n) = {0, a, 2a, ...,
 wf = z3.Function("wfset", S, B)  # non-empty and all elements >= 0
 aligned = z3.Function("aligned", S, I, B)  # every element is a multiple of a
 pmod = z3.Function("pmod", I, I, I)
+finite = z3.Function("finite", S, B)  # every Python set is finite
+D_uf = z3.Function("D!op", V.RefSort, S)  # ghost: the mathematical set denoted by an Operator object
+dmap_f = z3.Function("Dmap", z3.ArraySort(I, V.RefSort), SS)
+minmap = z3.Function("minmap", SS, IS)
+maxmap = z3.Function("maxmap", SS, IS)
 
 # witness (skolem) functions
 w_mod = z3.Function("w_mod", S, I, I, I)
@@ -52,6 +57,9 @@ w_wf = z3.Function("w_wf", S, I)
 w_al = z3.Function("w_al", S, I, I)
 sk_nsum = z3.Function("sk_nsum", SS, SS, I, I, I)
 sk_seq = z3.Function("sk_seq", IS, IS, I, I)
+sk_ext = z3.Function("sk_ext", SS, SS, I, I)
+sk_wf = z3.Function("sk_wf", SS, I, I)
+w_neg = z3.Function("w_neg", S, I)
 w_minseq = z3.Function("w_minseq", IS, I, I)
 w_maxseq = z3.Function("w_maxseq", IS, I, I)
 
@@ -67,6 +75,7 @@ def _vars():
 def prelude() -> List[Tuple[str, str, Any]]:
     """(name, justification, axiom)"""
     A, Bs, F, G, M, N, a, b, c, d, k, k2, n, r, x, y, i = _vars()
+    C = z3.Const("C", z3.ArraySort(I, V.RefSort))
     sel = z3.Select
     FA = z3.ForAll
     Imp = z3.Implies
@@ -81,17 +90,21 @@ def prelude() -> List[Tuple[str, str, Any]]:
     pow2 = z3.Function("pow2", I, I)
     add("pow2-table", "definitional: pow2(k) = 2**k, evaluated for k = 0..130",
         And(*[pow2(z3.IntVal(kk)) == z3.IntVal(2 ** kk) for kk in range(0, 131)]))
-    add("pow2-pos", "Lean: Nat.pos_pow_of_pos; monotone (Nat.pow_le_pow_right)",
-        FA([k], Imp(k >= 0, pow2(k) >= 1), patterns=[pow2(k)]))
-    add("pmod-def", "definitional: pmod(x,d) is x mod d for d > 0",
-        FA([x, d], Imp(d > 0, And(pmod(x, d) == x % d, pmod(x, d) >= 0, pmod(x, d) < d)), patterns=[pmod(x, d)]))
+    add("pow2-pos", "Nat.pos_pow_of_pos", FA([k], Imp(k >= 0, pow2(k) >= 1), patterns=[pow2(k)]))
+    add("pmod-def", "definitional: pmod(x,d) is x mod d for d > 0 (Nat.mod_lt, Nat.mod_le)",
+        FA([x, d], Imp(d > 0, And(pmod(x, d) == x % d, pmod(x, d) >= 0, pmod(x, d) < d,
+                                  Imp(x >= 0, pmod(x, d) <= x))), patterns=[pmod(x, d)]))
+    add("pmod-idem", "Nat.mod_mod", FA([x, d], Imp(d > 0, pmod(pmod(x, d), d) == pmod(x, d)),
+                                       patterns=[pmod(pmod(x, d), d)]))
     add("pad-def", "definitional (Lean Pydsdl.pad): pad r x = (x + r - 1) / r * r; with Basic.pad_dvd, le_pad, pad_lt",
         FA([r, x], Imp(r >= 1, And(pad_f(r, x) == ((x + r - 1) / r) * r,
-                                   pad_f(r, x) >= x, pad_f(r, x) < x + r, pad_f(r, x) % r == 0)),
+                                   pad_f(r, x) >= x, pad_f(r, x) < x + r, pmod(pad_f(r, x), r) == 0)),
            patterns=[pad_f(r, x)]))
     add("pad-mono", "Lean Basic.pad_mono",
         FA([r, x, y], Imp(And(r >= 1, x <= y), pad_f(r, x) <= pad_f(r, y)), patterns=[MP(pad_f(r, x), pad_f(r, y))]))
-    add("pad-mod", "Lean Pad.pad_mod with L = lcm r d (r | L and d | L by the assumed contract of math.lcm)",
+    add("pad-of-dvd", "Lean Basic.pad_of_dvd",
+        FA([r, x], Imp(And(r >= 1, x >= 0, pmod(x, r) == 0), pad_f(r, x) == x), patterns=[pad_f(r, x)]))
+    add("pad-mod", "Lean Pad.pad_mod with L = lcm r d (r | L and d | L: assumed contract of math.lcm)",
         FA([r, d, x], Imp(And(r >= 1, d >= 1, x >= 0),
                           pmod(pad_f(r, pmod(x, lcm_f(r, d))), d) == pmod(pad_f(r, x), d)),
            patterns=[pad_f(r, pmod(x, lcm_f(r, d)))]))
@@ -105,6 +118,8 @@ def prelude() -> List[Tuple[str, str, Any]]:
     add("modset-out", "definitional",
         FA([A, d, y], Imp(And(sel(modset_f(A, d), y), d >= 1),
                           And(sel(A, w_mod(A, d, y)), y == pmod(w_mod(A, d, y), d))), patterns=[sel(modset_f(A, d), y)]))
+    add("modset-idem", "Lean Bounds.modset_idem (Finset.image_image, Nat.mod_mod)",
+        FA([A, d], Imp(d >= 1, modset_f(modset_f(A, d), d) == modset_f(A, d)), patterns=[modset_f(modset_f(A, d), d)]))
     add("padset-in", "definitional: padset A r = A.image (pad r)",
         FA([A, r, x], Imp(sel(A, x), sel(padset_f(A, r), pad_f(r, x))), patterns=[MP(sel(A, x), padset_f(A, r))]))
     add("padset-out", "definitional",
@@ -135,28 +150,111 @@ def prelude() -> List[Tuple[str, str, Any]]:
     add("singleton-mem", "definitional", FA([a], sel(singleton_f(a), a), patterns=[singleton_f(a)]))
     add("kfold-zero", "definitional (Lean kfold A 0 = {0})",
         FA([A], kfold(A, 0) == singleton_f(0), patterns=[kfold(A, 0)]))
-    add("kfold-one", "Lean: kfold A 1 = sumset {0} A = A   (Basic.kfold definition unfolded once)",
+    add("kfold-one", "Lean: kfold A 1 = sumset {0} A = A   (kfold unfolded once; zero_add)",
         FA([A], kfold(A, 1) == A, patterns=[kfold(A, 1)]))
     add("nsum-zero", "definitional (Lean nsum [] = {0})", FA([F], nsum(F, 0) == singleton_f(0), patterns=[nsum(F, 0)]))
+    add("dmap", "definitional: Dmap C i = D (C i)  (the list of the children's sets)",
+        FA([C, i], sel(dmap_f(C), i) == D_uf(sel(C, i)), patterns=[sel(dmap_f(C), i)]))
+    add("minmap", "definitional", FA([F, i], sel(minmap(F), i) == smin(sel(F, i)), patterns=[sel(minmap(F), i)]))
+    add("maxmap", "definitional", FA([F, i], sel(maxmap(F), i) == smax(sel(F, i)), patterns=[sel(maxmap(F), i)]))
 
-    # ---- well-formedness (non-empty, non-negative) and alignment predicates
-    add("wf-elim", "definitional: wfset A := A non-empty and all elements >= 0",
-        FA([A], Imp(wf(A), sel(A, w_wf(A))), patterns=[wf(A)]))
-    add("wf-nonneg", "definitional",
-        FA([A, x], Imp(And(wf(A), sel(A, x)), x >= 0), patterns=[MP(wf(A), sel(A, x))]))
-    add("wf-intro", "definitional (skolemised converse)",
-        FA([A, x], Imp(And(sel(A, x), Or(Not(sel(A, w_al(A, 0))), w_al(A, 0) >= 0)), wf(A)), patterns=[MP(sel(A, x), wf(A))]))
+    # ---- extensionality of the sequence-indexed functions on the first n entries (pure logic)
+    add("nsum-ext", "congruence: nsum depends on the first n entries only (Lean Bounds.nsum_congr)",
+        FA([F, G, n], Or(And(0 <= sk_ext(F, G, n), sk_ext(F, G, n) < n, sel(F, sk_ext(F, G, n)) != sel(G, sk_ext(F, G, n))),
+                         nsum(F, n) == nsum(G, n)), patterns=[MP(nsum(F, n), nsum(G, n))]))
+    add("unions-ext", "congruence",
+        FA([F, G, n], Or(And(0 <= sk_ext(F, G, n), sk_ext(F, G, n) < n, sel(F, sk_ext(F, G, n)) != sel(G, sk_ext(F, G, n))),
+                         unions_f(F, n) == unions_f(G, n)), patterns=[MP(unions_f(F, n), unions_f(G, n))]))
+    for fn_, nm in ((sumseq, "sumseq"), (minseq, "minseq"), (maxseq, "maxseq")):
+        add(nm + "-ext", "congruence (List.sum / fold over pointwise equal lists)",
+            FA([M, N, n], Or(And(0 <= sk_seq(M, N, n), sk_seq(M, N, n) < n, sel(M, sk_seq(M, N, n)) != sel(N, sk_seq(M, N, n))),
+                             fn_(M, n) == fn_(N, n)), patterns=[MP(fn_(M, n), fn_(N, n))]))
+    add("minseq-def", "definitional: minimum of a non-empty list",
+        FA([M, n], Imp(n >= 1, And(0 <= w_minseq(M, n), w_minseq(M, n) < n, minseq(M, n) == sel(M, w_minseq(M, n)))),
+           patterns=[minseq(M, n)]))
+    add("minseq-le", "definitional",
+        FA([M, n, i], Imp(And(0 <= i, i < n), minseq(M, n) <= sel(M, i)), patterns=[MP(minseq(M, n), sel(M, i))]))
+    add("maxseq-def", "definitional: maximum of a non-empty list",
+        FA([M, n], Imp(n >= 1, And(0 <= w_maxseq(M, n), w_maxseq(M, n) < n, maxseq(M, n) == sel(M, w_maxseq(M, n)))),
+           patterns=[maxseq(M, n)]))
+    add("maxseq-ge", "definitional",
+        FA([M, n, i], Imp(And(0 <= i, i < n), maxseq(M, n) >= sel(M, i)), patterns=[MP(maxseq(M, n), sel(M, i))]))
+
+    # ---- well-formedness: non-empty finite set of naturals (Finset N, Nonempty in Lean)
+    add("wf-elim", "definitional: wfset A := A is a non-empty finite set of naturals; smin/smax are its least/greatest element",
+        FA([A], Imp(wf(A), And(sel(A, w_wf(A)), sel(A, smin(A)), sel(A, smax(A)), smin(A) >= 0, smin(A) <= smax(A))),
+           patterns=[wf(A)]))
+    add("wf-bounds", "definitional (Finset.min'_le, Finset.le_max')",
+        FA([A, x], Imp(And(wf(A), sel(A, x)), And(x >= 0, smin(A) <= x, x <= smax(A))), patterns=[MP(wf(A), sel(A, x))]))
+    add("wf-intro", "definitional: a finite (Python) set that is non-empty and has no negative element is well formed",
+        FA([A, x], Imp(And(finite(A), sel(A, x), Not(And(sel(A, w_neg(A)), w_neg(A) < 0))), wf(A)),
+           patterns=[MP(finite(A), sel(A, x))]))
+    add("wf-finite", "definitional", FA([A], Imp(wf(A), finite(A)), patterns=[wf(A)]))
+    add("wf-modset", "closure: image of a non-empty finite set of naturals under (. % d)  (Finset.Nonempty.image)",
+        FA([A, d], Imp(And(wf(A), d >= 1), wf(modset_f(A, d))), patterns=[modset_f(A, d)]))
+    add("wf-padset", "closure (Finset.Nonempty.image, Basic.le_pad)",
+        FA([A, r], Imp(And(wf(A), r >= 1), wf(padset_f(A, r))), patterns=[padset_f(A, r)]))
+    add("wf-sumset", "closure (Lean Bounds.sumset_nonempty)",
+        FA([A, Bs], Imp(And(wf(A), wf(Bs)), wf(sumset_f(A, Bs))), patterns=[sumset_f(A, Bs)]))
+    add("wf-kfold", "closure (Lean Bounds.kfold_nonempty)",
+        FA([A, k], Imp(And(wf(A), k >= 0), wf(kfold(A, k))), patterns=[kfold(A, k)]))
+    add("wf-rangefold", "closure (Lean Bounds.rangefold_nonempty)",
+        FA([A, k], Imp(And(wf(A), k >= 0), wf(rangefold_f(A, k))), patterns=[rangefold_f(A, k)]))
+    add("wf-singleton", "closure", FA([a], Imp(a >= 0, wf(singleton_f(a))), patterns=[singleton_f(a)]))
+    add("wf-nsum", "closure (Lean Bounds.nsum_nonempty)",
+        FA([F, n], Imp(n >= 0, Or(And(0 <= sk_wf(F, n), sk_wf(F, n) < n, Not(wf(sel(F, sk_wf(F, n))))), wf(nsum(F, n)))),
+           patterns=[nsum(F, n)]))
+    add("wf-unions", "closure (a non-empty union of non-empty finite sets)",
+        FA([F, n], Imp(n >= 1, Or(And(0 <= sk_wf(F, n), sk_wf(F, n) < n, Not(wf(sel(F, sk_wf(F, n))))), wf(unions_f(F, n)))),
+           patterns=[unions_f(F, n)]))
+    add("wf-D", "interface invariant of Operator: D(op) is a non-empty finite set of naturals "
+                "(established by every constructor: obligations inv#wf)",
+        FA([z3.Const("o", V.RefSort)], wf(D_uf(z3.Const("o", V.RefSort))), patterns=[D_uf(z3.Const("o", V.RefSort))]))
+
+    # ---- lemmas proved in Lean
+    add("modset-nsum", "Lean Basic.modset_nsum (applied to both lists): residues of an n-ary sum depend only on the "
+                       "residues of the operands",
+        FA([F, G, n, d], Imp(And(d >= 1, n >= 0),
+                             Or(And(0 <= sk_nsum(F, G, n, d), sk_nsum(F, G, n, d) < n,
+                                    modset_f(sel(F, sk_nsum(F, G, n, d)), d) != modset_f(sel(G, sk_nsum(F, G, n, d)), d)),
+                                modset_f(nsum(F, n), d) == modset_f(nsum(G, n), d))),
+           patterns=[MP(modset_f(nsum(F, n), d), nsum(G, n))]))
+    add("rep-mod", "Lean Sumset.repetition_modulo_correct",
+        FA([A, d, k, k2], Imp(And(d >= 1, wf(A), k >= 0, k2 >= 0,
+                                  Or(k2 == k, And(d - 1 <= k2, d - 1 <= k, pmod(k2, d) == pmod(k, d)))),
+                              modset_f(kfold(modset_f(A, d), k2), d) == modset_f(kfold(A, k), d)),
+           patterns=[MP(kfold(modset_f(A, d), k2), kfold(A, k))]))
+    add("range-rep-mod", "Lean Sumset.range_repetition_modulo_correct",
+        FA([A, d, k, k2], Imp(And(d >= 1, k >= 0, k2 >= 0, Or(k2 == k, And(d - 1 <= k2, d - 1 <= k))),
+                              modset_f(rangefold_f(modset_f(A, d), k2), d) == modset_f(rangefold_f(A, k), d)),
+           patterns=[MP(rangefold_f(modset_f(A, d), k2), rangefold_f(A, k))]))
+    add("kfold-bounds", "Lean Basic.kfold_bounds with lo = smin A, hi = smax A",
+        FA([A, k, x], Imp(And(wf(A), k >= 0, sel(kfold(A, k), x)), And(k * smin(A) <= x, x <= k * smax(A))),
+           patterns=[sel(kfold(A, k), x)]))
+    add("kfold-mem-mul", "Lean Basic.kfold_mem_mul",
+        FA([A, k, x], Imp(And(sel(A, x), k >= 0), sel(kfold(A, k), k * x)), patterns=[MP(sel(A, x), kfold(A, k))]))
+    add("rangefold-bounds", "Lean Basic.zero_mem_rangefold, rangefold_le, max_mem_rangefold",
+        FA([A, k], Imp(And(wf(A), k >= 0), And(sel(rangefold_f(A, k), 0), sel(rangefold_f(A, k), k * smax(A)))),
+           patterns=[rangefold_f(A, k)]))
+    add("rangefold-le", "Lean Basic.rangefold_le with hi = smax A",
+        FA([A, k, x], Imp(And(wf(A), k >= 0, sel(rangefold_f(A, k), x)), x <= k * smax(A)),
+           patterns=[sel(rangefold_f(A, k), x)]))
+    add("nsum-bounds", "Lean Bounds.nsum_bounds with f = smin, g = smax",
+        FA([F, n, x], Imp(And(n >= 0, sel(nsum(F, n), x)),
+                          Or(And(0 <= sk_wf(F, n), sk_wf(F, n) < n, Not(wf(sel(F, sk_wf(F, n))))),
+                             And(sumseq(minmap(F), n) <= x, x <= sumseq(maxmap(F), n)))),
+           patterns=[sel(nsum(F, n), x)]))
+    add("nsum-mem", "Lean Bounds.nsum_mem_sum with c = smin and c = smax",
+        FA([F, n], Imp(n >= 0, Or(And(0 <= sk_wf(F, n), sk_wf(F, n) < n, Not(wf(sel(F, sk_wf(F, n))))),
+                                  And(sel(nsum(F, n), sumseq(minmap(F), n)), sel(nsum(F, n), sumseq(maxmap(F), n))))),
+           patterns=[nsum(F, n)]))
+
+    # ---- alignment (every element is a multiple of a)
     add("aligned-elim", "definitional: aligned A a := every element of A is a multiple of a",
         FA([A, a, x], Imp(And(aligned(A, a), sel(A, x), a >= 1), pmod(x, a) == 0), patterns=[MP(aligned(A, a), sel(A, x))]))
     add("aligned-intro", "definitional (skolemised converse)",
         FA([A, a], Imp(And(a >= 1, Or(Not(sel(A, w_al(A, a))), pmod(w_al(A, a), a) == 0)), aligned(A, a)),
            patterns=[aligned(A, a)]))
-
-    # ---- min / max of a set
-    add("smin-def", "definitional: smin A is the least element of a non-empty set of naturals",
-        FA([A], Imp(wf(A), sel(A, smin(A))), patterns=[smin(A)]))
-    add("smin-le", "definitional",
-        FA([A, x], Imp(And(wf(A), sel(A, x)), smin(A) <= x), patterns=[MP(smin(A), sel(A, x))]))
     return ax
 
 
